@@ -222,6 +222,25 @@ class Sim:
                     g['edges'].append(dict(outs=['ovf%d' % i], iouts=[], phony=False, exp=[srcs_[(op['a'] + i) % len(srcs_)]], imp=[], oo=[], vals=[],
                                            restat=False, generator=False, deps='', hidden=[], variant='v0', pool='', rsp=None, dd=None, depfile_layout=0))
                 self.labels.add('manifest_statement_added')
+        elif k == 'ctx_restat_input':
+            # (macro step) the source input of a restat statement gets new content (edit) or only a new time stamp (touch)
+            if op.get('pick') is not None:
+                self.macro_ctx = None
+                es = [e for e in cmds if models.is_restat(e) and any(i in srcs and i in self.files for i in e['exp'] + e['imp'])]
+                # half of the time a statement whose output is consumed through a phony alias, if there is one
+                via_alias = [e for e in es if any(x['phony'] and set(all_outs(e)) & set(x['exp'] + x['imp'] + x['oo']) for x in g['edges'])]
+                if via_alias and op['pick'] % 2 == 0:
+                    es = via_alias
+                if es:
+                    e = es[op['pick'] % len(es)]
+                    self.macro_ctx = dict(R=key(e), rsrc=[i for i in e['exp'] + e['imp'] if i in srcs and i in self.files][0])
+            ctx = getattr(self, 'macro_ctx', None)
+            if ctx and ctx.get('rsrc'):
+                if op.get('edit'):
+                    self.write(ctx['rsrc'], self.new_content(ctx['rsrc'], op.get('c', 5)))
+                else:
+                    self.touch(ctx['rsrc'])
+                    self.labels.add('restat_noop_after_partial_build')
         elif k == 'ctx_del_src':
             if getattr(self, 'macro_ctx', None):
                 self.delete(self.macro_ctx['S'])
@@ -935,6 +954,16 @@ class Sim:
                 yield dict(op='ctx_edit_psrc', c=op['c'])
                 ctx = getattr(self, 'macro_ctx', None)
                 yield dict(b_all, targets=[ctx['X']]) if ctx else b_all
+                continue
+            elif k == 'm_partial_restat_then_noop':
+                # the output of a restat statement really changes in a build that requests nothing else; the next time the
+                # statement runs it reproduces its output, and only then is everything else built
+                yield dict(op='ctx_restat_input', pick=op['a'], edit=True, c=op['c'])
+                ctx = getattr(self, 'macro_ctx', None)
+                if ctx:
+                    yield dict(op='build', sel=0, j=1, k=1, sched=[], targets=[ctx['R']])
+                    yield dict(op='ctx_restat_input', edit=False)
+                yield b_all
                 continue
             elif k == 'm_overlapping_failures':
                 # more commands fail while running together than -k allows, with other work still waiting
